@@ -496,7 +496,8 @@ pub fn td_history(ctx: &mut Ctx, n: u64) {
     ctx.op("td.empty 1".into());
     ctx.op(format!("td.quantile 1 {}", fx(0.5)));
     ctx.op(format!("td.cdf 1 {}", fx(0.0)));
-    let shape = ctx.rng.below(5);
+    let shape = ctx.rng.below(6);
+    let near = *ctx.rng.pick(&[0.1f64, 0.3, 1e-3, 7.7, 123.456, 1e10 / 3.0]);
     let weighted = ctx.rng.chance(1, 3);
     let mut inserted: Vec<f64> = vec![];
     for t in 0..n {
@@ -505,15 +506,19 @@ pub fn td_history(ctx: &mut Ctx, n: u64) {
             1 => (n - t) as f64,
             2 => ctx.rng.below(5) as f64,                      // heavy ties
             3 => (ctx.rng.f01() * 12.0).exp() * if ctx.rng.chance(1, 2) { 1.0 } else { -1.0 }, // heavy tails
+            // (almost) equal values: sum/count rounding puts centroid means an ulp outside [min, max]
+            5 => near * (1.0 + *ctx.rng.pick(&[0.0, 0.0, 0.0, 1e-16, 2.3e-16, -1.2e-16, 1e-3])),
             _ => (ctx.rng.f01() + ctx.rng.f01() + ctx.rng.f01() - 1.5) * 100.0,
         };
         if weighted {
-            let w = match ctx.rng.below(6) {
+            let w = match ctx.rng.below(9) {
                 0 => 0.0,
                 1 => 0.5,
                 2 => 3.0,
                 3 => 1e-6,
                 4 => 1e6,
+                5 => 0.1,
+                6 => 0.3,
                 _ => 1.0,
             };
             ctx.op(format!("td.insertw 1 {} {}", fx(x), fx(w)));
